@@ -5,6 +5,7 @@ package main
 
 import (
 	"go/token"
+	"go/types"
 	"sort"
 	"strings"
 
@@ -326,26 +327,113 @@ func c08R3(h H) {
 			}
 		}
 	})
+	// the same guarantee without a defer: the cleanup slice lives in a register and every error return is preceded
+	// by a loop that closes its elements
+	isCloserSlice := func(t types.Type) bool {
+		sl, ok := t.Underlying().(*types.Slice)
+		if !ok {
+			return false
+		}
+		it, ok := sl.Elem().Underlying().(*types.Interface)
+		if !ok {
+			return false
+		}
+		for i := 0; i < it.NumMethods(); i++ {
+			if it.Method(i).Name() == "Close" {
+				return true
+			}
+		}
+		return false
+	}
+	inline := false
 	if cleanup == nil {
+		// close loops of fn itself: loop headers whose body invokes Close on an element of a closer slice
+		closeHeaders := map[*ssa.BasicBlock]bool{}
+		allInstrs(fn, func(x ssa.Instruction) {
+			c := callOf(x)
+			if c == nil || !c.IsInvoke() || c.Method.Name() != "Close" {
+				return
+			}
+			fromSlice := derives(c.Value, func(v ssa.Value) bool {
+				switch t := v.(type) {
+				case *ssa.IndexAddr:
+					return isCloserSlice(t.X.Type())
+				case *ssa.Index:
+					return isCloserSlice(t.X.Type())
+				}
+				return false
+			}, flowOpts{})
+			if hd, _ := loopOf(x.Block()); hd != nil && fromSlice {
+				closeHeaders[hd] = true
+			}
+		})
+		var appends []ssa.Instruction
+		allInstrs(fn, func(x ssa.Instruction) {
+			if c, ok := x.(*ssa.Call); ok && calleeName(&c.Call) == "builtin.append" && isCloserSlice(c.Type()) {
+				appends = append(appends, x)
+			}
+		})
+		if len(closeHeaders) > 0 && len(appends) > 0 {
+			inline = true
+			okAll := true
+			var badPos token.Pos
+			passesClose := func(x ssa.Instruction) bool {
+				i, ok := x.(*ssa.If)
+				return ok && closeHeaders[i.Block()]
+			}
+			for _, rt := range realReturns(fn) {
+				res := retResults(rt)
+				if c, isC := res[len(res)-1].(*ssa.Const); isC && c.Value == nil {
+					continue
+				}
+				for _, a := range appends {
+					if canReach(fn, a, rt, cut{instr: passesClose}) {
+						okAll = false
+						badPos = rt.Pos()
+					}
+				}
+			}
+			what := "every error return that follows the opening of a listener first closes the listeners opened so far"
+			if !okAll {
+				what += "; not so at " + h.p.Pos(badPos)
+			}
+			r.Check(okAll, "R3", "casket.startServers/cleanup-defer", fn.Pos(), what)
+		}
+	}
+	if cleanup == nil && !inline {
 		r.Fail("R3", "casket.startServers/cleanup-defer", fn.Pos(), "no deferred cleanup closing the listeners opened so far: a failed start leaves listening sockets behind")
 		return
 	}
-	// the cleanup runs under the function's error result being non-nil
-	condOK := false
-	for _, i := range ifs(cleanupFn) {
-		if x, nilWhenTrue, ok := nilCmp(i.Cond); ok && !nilWhenTrue && strings.HasSuffix(x.Type().String(), "error") {
-			condOK = true
+	if cleanup != nil {
+		// the cleanup runs under the function's error result being non-nil
+		condOK := false
+		for _, i := range ifs(cleanupFn) {
+			if x, nilWhenTrue, ok := nilCmp(i.Cond); ok && !nilWhenTrue && strings.HasSuffix(x.Type().String(), "error") {
+				condOK = true
+			}
 		}
+		r.Check(condOK, "R3", "casket.startServers/cleanup-defer", cleanupFn.Pos(), "deferred cleanup closes the opened listeners when the start returns an error")
 	}
-	r.Check(condOK, "R3", "casket.startServers/cleanup-defer", cleanupFn.Pos(), "deferred cleanup closes the opened listeners when the start returns an error")
 	// appends to the cleanup slice
 	isCleanupAppendOf := func(in ssa.Instruction, v ssa.Value) bool {
-		st, ok := in.(*ssa.Store)
-		if !ok || st.Addr != ssa.Value(cleanup) {
-			return false
+		var c *ssa.Call
+		if cleanup != nil {
+			st, ok := in.(*ssa.Store)
+			if !ok || st.Addr != ssa.Value(cleanup) {
+				return false
+			}
+			c, ok = st.Val.(*ssa.Call)
+			if !ok {
+				return false
+			}
+		} else {
+			cc, ok := in.(*ssa.Call)
+			if !ok || !isCloserSlice(cc.Type()) {
+				return false
+			}
+			c = cc
 		}
-		c, ok := st.Val.(*ssa.Call)
-		if !ok || calleeName(&c.Call) != "builtin.append" || len(c.Call.Args) < 2 {
+		if calleeName(&c.Call) != "builtin.append" || len(c.Call.Args) < 2 {
 			return false
 		}
 		return derives(c.Call.Args[1], func(x ssa.Value) bool { return stripIface(x) == v || x == v }, flowOpts{})
